@@ -12,6 +12,7 @@ func init() {
 	verifRegister("verifC20Controlling", verifC20Controlling)
 	verifRegister("verifC20Deferred", verifC20Deferred)
 	verifRegister("verifC20DeferredSuperseded", verifC20DeferredSuperseded)
+	verifRegister("verifC20DeferredRearmed", verifC20DeferredRearmed)
 	verifRegister("verifC20ControllingReorder", verifC20ControllingReorder)
 	verifRegister("verifC20DeferredConsumedOnce", verifC20DeferredConsumedOnce)
 	verifRegister("verifC20Renominate", verifC20Renominate)
@@ -416,5 +417,61 @@ func verifC20DeferredConsumedOnce() {
 	// 5. the keepalive's response arrives late
 	answer(keepalive, 0)
 	verifAssertKnown(a.getSelectedPair() == pq, "a-consumed-deferred-nomination-is-not-applied-again-by-a-later-response", "C20-deferred-nomination-applied-twice", true)
+	verifReach("done")
+}
+
+// (3'') the same not-yet-valid pair B is nominated twice, with another
+// nomination (on the valid pair A) possibly in between: v1 on B (deferred),
+// optionally v2 on A, then v3 > max(v1, v2) on B again. The deferred
+// nomination B carries is now v3 — the latest accepted one — so that when B's
+// check succeeds the agent selects B, the pair of the highest value issued
+// (seed C20-7 armed the deferred nomination once and kept the stale v1, which
+// the success handler then dropped as superseded).
+func verifC20DeferredRearmed() {
+	w := verifNewWorld(false, false, 2, 1)
+	a := w.a
+	a.enableRenomination = true
+	w.pairAll()
+	for _, l := range w.locals {
+		l.priorityOverride = 1 + uint32(verifU8())
+	}
+	pa, pb := a.checklist[0], a.checklist[1]
+	pa.state = CandidatePairStateSucceeded
+	pb.state = CandidatePairState(verifInt(1, 2))
+	src := w.remotes[0].addrPort()
+	nominate := func(li int, v uint32) {
+		req, err := stun.Build(stun.BindingRequest, stun.NewTransactionIDSetter(verifTxID()), stun.NewUsername(verifExpectedUsername), UseCandidate(),
+			NominationSetter{Value: v, AttrType: DefaultNominationAttribute}, AttrControlling(1), PriorityAttr(5),
+			stun.NewShortTermIntegrity(verifLocalPwd), stun.Fingerprint)
+		verifAssert(err == nil, "build")
+		a.handleInbound(req, w.locals[li], src)
+	}
+	v1, v2, v3 := verifU32()&0xFFFFFF, verifU32()&0xFFFFFF, verifU32()&0xFFFFFF
+	verifAssume(v3 > v1)
+	nominate(1, v1)
+	verifAssert(pb.nominateOnBindingSuccess && a.getSelectedPair() == nil, "first-nomination-deferred-until-its-pair-is-valid")
+	if verifChoice(2) == 1 {
+		verifReach("other-pair-in-between")
+		verifAssume(v3 > v2)
+		nominate(0, v2)
+	}
+	nominate(1, v3)
+	verifAssert(pb.nominateOnBindingSuccess && pb.renominateOnBindingSuccess, "second-nomination-of-the-same-pair-still-deferred")
+	verifAssert(pb.deferredNominationValue == v3, "the-deferred-nomination-carries-the-latest-accepted-value")
+	var check *stun.Message
+	for i := range w.conns[1].sent {
+		if m := verifParseSent(w.conns[1], i); m != nil && m.Type.Class == stun.ClassRequest {
+			check = m
+		}
+	}
+	verifAssert(check != nil, "triggered-check-sent")
+	if check == nil {
+		return
+	}
+	resp, err := stun.Build(stun.BindingSuccess, stun.NewTransactionIDSetter(check.TransactionID), stun.NewShortTermIntegrity(verifRemotePwd), stun.Fingerprint)
+	verifAssert(err == nil, "build")
+	a.handleInbound(resp, w.locals[1], src)
+	verifAssert(pb.state == CandidatePairStateSucceeded, "second-pair-valid")
+	verifAssert(a.getSelectedPair() == pb, "the-highest-accepted-value's-pair-is-selected-once-valid")
 	verifReach("done")
 }
